@@ -38,6 +38,8 @@ def enc2(v):
         return {"V": [enc2(x) for x in v]}
     if type(v) is type({}.keys()):
         return {"K": [enc2(x) for x in v]}
+    if type(v) is bytes:
+        return {"y": v.hex()}
     return encode(v)
 
 
@@ -57,6 +59,8 @@ def dec2(j):
             return {i: dec2(x) for i, x in enumerate(j["V"])}.values()
         if "K" in j:
             return {dec2(x): None for x in j["K"]}.keys()
+        if "y" in j:
+            return bytes.fromhex(j["y"])
     return decode(j)
 
 
